@@ -4536,11 +4536,23 @@ class ParameterizedMetaclass(type):
                 mcs.__dict__[attribute_name].__set__(None,value)
 
         else:
-            type.__setattr__(mcs,attribute_name,value)
-
             if isinstance(value,Parameter):
-                mcs.__param_inheritance(attribute_name,value)
-                _clear_params_cache(mcs)
+                previous = mcs.__dict__.get(attribute_name, Undefined)
+                type.__setattr__(mcs,attribute_name,value)
+                try:
+                    # (the Parameter learns its name, as one declared in
+                    # the class body or given to add_parameter does)
+                    mcs._initialize_parameter(attribute_name,value)
+                except BaseException:
+                    if previous is Undefined:
+                        type.__delattr__(mcs,attribute_name)
+                    else:
+                        type.__setattr__(mcs,attribute_name,previous)
+                    raise
+                finally:
+                    _clear_params_cache(mcs)
+            else:
+                type.__setattr__(mcs,attribute_name,value)
 
     def __param_inheritance(mcs, param_name, param):
         """
